@@ -639,6 +639,9 @@ def file_signatures(ef):
     for n, (form, name) in sorted(ef.override.items()):
         if form in gen.FORMS_DEFAULTED and form not in ("noname", "notype-arr"):
             sigs.append(SIG_PREFIX + "crypt-filter-defaults:" + form)
+    if any(form == "arr1-dict" for form, name in ef.override.values()):
+        # writer side (finding F14): eraseItem on the ONE /DecodeParms dictionary of /Filter [/Crypt] when the stream is copied unfiltered
+        sigs.append(SIG_PREFIX + "crypt-array-one-dict-erase-warning")
     return sigs
 
 
@@ -1120,6 +1123,9 @@ def cli_part(chk, efs, run, drv, work, rng):
             s3 = first_sig(ef)
             if kind in ("preserve", "copyenc", "copyself") and ef.plan.get("length_style") == "absent" and ef.V in (2, 4, 5):
                 s3 = SIG_PREFIX + "preserve-without-length"
+            if not s3 and "ignoring attempt to erase item" in err and any(fm == "arr1-dict" for fm, _ in ef.override.values()):
+                # writer side (finding F14): /Filter [/Crypt] with ONE /DecodeParms dictionary, stream copied without re-filtering
+                s3 = SIG_PREFIX + "crypt-array-one-dict-erase-warning"
             bad("warnings while reading a well-formed encrypted file", signature=s3)
         if kind == "decrypt":
             to_strict.append(outp)
